@@ -91,7 +91,8 @@ func c10Gen(rng *verifsim.RNG, idx int, tier string) *Plan {
 		}
 		p.Actions = append(p.Actions, a, Action{At: f, Kind: "link", If: "eth0", Oper: "down"})
 	case "link":
-		l := Action{At: f, Kind: "link", If: "eth0", Oper: []string{"down", "down", "up", "dormant"}[rng.Intn(4)]}
+		// (sometimes several messages about the interface arrive in one batch)
+		l := Action{At: f, Kind: "link", If: "eth0", Oper: []string{"down", "down", "up", "dormant", "down+up", "down+dormant", "up+down+dormant", "up+dormant"}[rng.Intn(8)]}
 		if !monitor && rng.Bool(0.35) {
 			// ... in the very instant in which more solicitations than the request
 			// queue holds are sitting in the socket (either may be noticed first)
@@ -200,7 +201,7 @@ func c10Oracle(info *runInfo, res *verifsim.Result) {
 			fault = e
 			break
 		}
-		if e.K == "act.link" && e.S == "down" && e.Err == "" && e.If == ifn {
+		if e.K == "act.link" && isDown(e.S) && e.Err == "" && e.If == ifn {
 			fault = e
 			break
 		}
